@@ -309,6 +309,38 @@ def _enclosing_block(fn, node, pm):
     return None, par, st
 
 
+def _untested_sentinel_callers(m, fi):
+    """[(caller, variable)] for call sites `x = fi(...)` whose result is used without an `is None` test."""
+    out = []
+    for caller in m.all_functions():
+        if caller.path.endswith('.pyx') or caller is fi:
+            continue
+        for st in stmts_of(caller.node):
+            if isinstance(st, ast.Assign) and isinstance(st.value, ast.Call) and isinstance(st.targets[0], ast.Name):
+                cs = m.resolve_call(caller, st.value)
+                if not cs or cs[0] is not fi:
+                    continue
+                var = st.targets[0].id
+                tested = False
+                for t2 in stmts_of(caller.node):
+                    if isinstance(t2, ast.If):
+                        tt = norm(t2.test).replace(' ', '')
+                        if tt in (f'{var}isNone', f'{var}isnotNone', f'not{var}', var):
+                            tested = True
+                if not tested:
+                    out.append((caller, var))
+            elif isinstance(st, (ast.Expr, ast.Return)) and isinstance(getattr(st, 'value', None), ast.Call):
+                pass
+        # direct use inside another call: f(g(x)) / list.append(g(x))
+        for c in calls_in(caller.node):
+            for a in c.args:
+                if isinstance(a, ast.Call):
+                    cs = m.resolve_call(caller, a)
+                    if cs and cs[0] is fi:
+                        out.append((caller, norm(a)[:40]))
+    return out
+
+
 def r4(ctx):
     m = ctx.model
     sites = skip_sites(m)
@@ -321,6 +353,17 @@ def r4(ctx):
         if blk is not None and stmt_ends_control(blk):
             ok = True
             why = 'branch leaves the iteration/function'
+            last = blk[-1]
+            if isinstance(last, ast.Return) and (last.value is None or norm(last.value) == 'None'):
+                untested = _untested_sentinel_callers(m, fi)
+                if untested:
+                    ok = False
+                    ctx.bad(fi.qualname.split(':')[1], f'sentinel-untested:{untested[0][0].qualname.split(":")[1]}',
+                            f'the skip is signalled by `return None`, but the caller {untested[0][0].qualname.split(":")[1]} uses '
+                            f'`{untested[0][1]}` without testing it for None: the skipped region is not dropped and breaks the '
+                            'rest of the list', untested[0][0].loc())
+                    continue
+                why = 'returns a None sentinel that every caller tests'
         elif blk is not None and isinstance(owner, ast.If):
             # sentinel: the branch assigns None (or similar) to a name the function returns / the caller tests
             sent = [s for s in blk if isinstance(s, ast.Assign) and isinstance(s.value, ast.Constant) and s.value.value is None]
